@@ -518,3 +518,151 @@ Proof.
     + intros i _. destruct (receives dst i); [|reflexivity]. f_equal. apply collect_accR.
     + rewrite IH. rewrite Nat.add_succ_r. reflexivity.
 Qed.
+
+(* ---- _sync_dtype_and_shape on the world group ---- *)
+Lemma maxZ_ge : forall l x, In x l -> (x <= maxZ l)%Z.
+Proof.
+  induction l as [|y l IH]; intros x Hx; [destruct Hx|]. unfold maxZ in *. cbn [fold_right].
+  destruct Hx as [<-|H]; [lia|]. specialize (IH x H). lia.
+Qed.
+Lemma maxZ_in : forall l, maxZ l = (-1)%Z \/ In (maxZ l) l.
+Proof.
+  induction l as [|y l IH]; [left; reflexivity|]. unfold maxZ in *. cbn [fold_right].
+  destruct (Z.max_spec y (fold_right Z.max (-1)%Z l)) as [[_ E]|[_ E]]; rewrite E.
+  - destruct IH as [IH|IH]; [left; exact IH|right; right; exact IH].
+  - right; left; reflexivity.
+Qed.
+
+Lemma index_of_seq : forall n a s, a <= s < a + n -> index_of s (seq a n) = s - a.
+Proof.
+  induction n as [|n IH]; intros a s H; [lia|]. cbn [seq index_of].
+  destruct (Nat.eqb_spec a s) as [->|Hne]; [lia|]. rewrite IH by lia. lia.
+Qed.
+Lemma in_group_seq n s : s < n -> in_group (seq 0 n) s = true.
+Proof. intros H. unfold in_group. apply existsb_exists. exists s. split; [apply in_seq; lia|apply Nat.eqb_refl]. Qed.
+
+Lemma respond_bcast_gen g s {X} (v : X -> option meta) (xs : list X) :
+  xs <> [] -> List.length xs = List.length g ->
+  respond g (map (fun x => BcastObj s (v x)) xs)
+  = if in_group g s then Some (map (fun _ => RMeta (nth (index_of s g) (map v xs) None)) xs)
+    else Some (map (fun _ => RErr "ValueError") xs).
+Proof.
+  intros Hne Hl. unfold respond. rewrite (len_check g xs _ Hl).
+  destruct xs as [|x0 xs]; [congruence|]. cbn [map].
+  change (BcastObj s (v x0) :: map (fun x => BcastObj s (v x)) xs) with (map (fun x => BcastObj s (v x)) (x0 :: xs)).
+  rewrite all_bco_map. rewrite !map_map. reflexivity.
+Qed.
+
+Lemma respond_bcast_world n s (v : nat -> option meta) : s < n ->
+  respond (seq 0 n) (map (fun i => BcastObj s (v i)) (seq 0 n)) = Some (map (fun _ => RMeta (v s)) (seq 0 n)).
+Proof.
+  intros Hs. rewrite respond_bcast_gen; [|apply seq_ne; lia|reflexivity].
+  rewrite in_group_seq by exact Hs. rewrite index_of_seq by lia. rewrite Nat.sub_0_r.
+  rewrite nth_map_seq by exact Hs. reflexivity.
+Qed.
+
+Lemma sync_dtype_shape_run n (xss : nat -> list tensor) d z :
+  n > 0 -> (exists i, i < n /\ xss i <> []) ->
+  (forall i, i < n -> forall t, In t (xss i) -> tens_ok d z t) ->
+  exists mr, (List.length (snd mr) = d /\ fst mr = z) /\
+    run_all (respond (seq 0 n)) (map (fun i => sync_dtype_shape i (hd_error (xss i))) (seq 0 n))
+    = Some (map (fun _ => Ok (Some mr)) (seq 0 n)).
+Proof.
+  intros Hn (i0 & Hi0 & Hne0) Ht.
+  set (f := fun i => match hd_error (xss i) with Some _ => Z.of_nat i | None => (-1)%Z end).
+  assert (Hr : exists r x l, r < n /\ xss r = x :: l /\ maxZ (map f (seq 0 n)) = Z.of_nat r).
+  { assert (Hge : (Z.of_nat i0 <= maxZ (map f (seq 0 n)))%Z).
+    { apply maxZ_ge. apply in_map_iff. exists i0. split; [|apply in_seq; lia].
+      unfold f. destruct (xss i0); [congruence|reflexivity]. }
+    pose proof (maxZ_in (map f (seq 0 n))) as HM.
+    set (M := maxZ (map f (seq 0 n))) in *. destruct HM as [E|Hin]; [lia|].
+    apply in_map_iff in Hin as (r & Er & Hr). apply in_seq in Hr. unfold f in Er.
+    destruct (xss r) as [|x l] eqn:Ex; cbn [hd_error] in Er; [lia|].
+    exists r, x, l. split; [lia|]. split; [exact Ex|]. symmetry. exact Er. }
+  destruct Hr as (r & x & l & Hrn & Ex & Emax).
+  exists (meta_of x). split.
+  { destruct (Ht r Hrn x) as (_ & Hd & Hz); [rewrite Ex; left; reflexivity|]. split; assumption. }
+  assert (Hne : seq 0 n <> []) by apply seq_ne, Hn.
+  unfold sync_dtype_shape.
+  step (fun i => AllGatherObj (VZ (match hd_error (xss i) with Some _ => Z.of_nat i | None => (-1)%Z end)))
+       (fun _ : nat => RObjs (map (fun i => VZ (f i)) (seq 0 n)));
+    [exact Hne|intros; reflexivity|apply (respond_allgatherobj (seq 0 n) (fun i => VZ (f i))); [exact Hne|reflexivity]|].
+  cbv beta iota zeta delta [cont]. rewrite map_map.
+  rewrite (map_ext (fun x => vZ (VZ (f x))) f) by reflexivity. rewrite Emax.
+  destruct (Z.eqb_spec (Z.of_nat r) (-1)) as [Hm1|_]; [lia|]. rewrite Nat2Z.id.
+  step (fun i => BcastObj r (if Z.eqb (Z.of_nat i) (Z.of_nat r) then option_map meta_of (hd_error (xss i)) else None))
+       (fun _ : nat => RMeta (Some (meta_of x)));
+    [exact Hne|intros; reflexivity| |].
+  { rewrite respond_bcast_world by exact Hrn. rewrite Z.eqb_refl, Ex. reflexivity. }
+  apply run_all_ret_ext. intros i _. reflexivity.
+Qed.
+
+Lemma maxl_ge : forall l x, In x l -> x <= maxl l.
+Proof.
+  induction l as [|y l IH]; intros x Hx; [destruct Hx|]. unfold maxl in *. cbn [fold_right].
+  destruct Hx as [<-|H]; [lia|]. specialize (IH x H). lia.
+Qed.
+
+Lemma accR_final Wg n xss K : K > 0 -> (forall j, j < n -> List.length (xss j) <= K) ->
+  accR Wg n xss K = pad_slots Wg (map (fun j => GL (xss j)) (seq 0 n)).
+Proof.
+  intros HK Hl. rewrite pad_slots_seq. unfold accR. f_equal. apply map_ext_in. intros j Hj. apply in_seq in Hj.
+  destruct K as [|K]; [lia|]. rewrite firstn_all2 by (apply Hl; lia). reflexivity.
+Qed.
+
+Theorem list_sync_lossless g dst Wg (xss : nat -> list tensor) d z : let n := List.length g in
+  n > 0 -> n <= Wg -> dst_ok g dst ->
+  (forall i, i < n -> forall t, In t (xss i) -> tens_ok d z t) ->
+  (exists i, i < n /\ xss i <> []) ->
+  ((exists i, i < n /\ xss i = []) -> g = seq 0 n) ->
+  run_all (respond g) (map (fun i => sync_list dst i Wg (xss i)) (seq 0 n))
+  = Some (map (fun i => Ok (if receives dst i then pad_slots Wg (map (fun j => GL (xss j)) (seq 0 n))
+                            else untouched Wg)) (seq 0 n)).
+Proof.
+  intros n Hn HW Hok Ht Hsome Hempty.
+  assert (Hne : seq 0 n <> []) by apply seq_ne, Hn.
+  set (lens := map (fun j => List.length (xss j)) (seq 0 n)).
+  assert (HK : maxl lens > 0).
+  { destruct Hsome as (i0 & Hi0 & Hne0). assert (List.length (xss i0) <= maxl lens).
+    { apply maxl_ge. unfold lens. apply (in_map (fun j => List.length (xss j))), in_seq. lia. }
+    destruct (xss i0); [congruence|]. cbn [List.length] in *. lia. }
+  assert (Hfin : accR Wg n xss (0 + maxl lens) = pad_slots Wg (map (fun j => GL (xss j)) (seq 0 n))).
+  { apply accR_final; [exact HK|]. intros j Hj. apply maxl_ge. unfold lens.
+    apply (in_map (fun j => List.length (xss j))), in_seq. lia. }
+  assert (Hloop : forall ms : nat -> meta, (forall i, i < n -> List.length (snd (ms i)) = d /\ fst (ms i) = z) ->
+    run_all (respond g) (map (fun i => list_loop dst i (ms i) lens (xss i) 0 (maxl lens) (untouched Wg)) (seq 0 n))
+    = Some (map (fun i => Ok (if receives dst i then pad_slots Wg (map (fun j => GL (xss j)) (seq 0 n))
+                              else untouched Wg)) (seq 0 n))).
+  { intros ms Hms. rewrite <- Hfin.
+    refine (extK g (fun i => list_loop dst i (ms i) lens (xss i) 0 (maxl lens)
+                               (if receives dst i then accR Wg n xss 0 else untouched Wg)) _ _ _ _ _).
+    - intros i _. destruct (receives dst i); [|reflexivity]. f_equal. unfold accR. apply untouched_split, HW.
+    - apply (list_loop_run g dst Wg xss ms d z Hn Hok Ht Hms). }
+  unfold sync_list.
+  step (fun i => AllGatherObj (VZ (Z.of_nat (List.length (xss i)))))
+       (fun _ : nat => RObjs (map (fun i => VZ (Z.of_nat (List.length (xss i)))) (seq 0 n)));
+    [exact Hne|intros; reflexivity|apply (respond_allgatherobj g (fun i => VZ (Z.of_nat (List.length (xss i))))); [exact Hne|apply seq_length]|].
+  cbv beta iota zeta delta [cont]. rewrite map_map.
+  rewrite (map_ext (fun x => Z.to_nat (vZ (VZ (Z.of_nat (List.length (xss x)))))) (fun x => List.length (xss x)))
+    by (intros; apply Nat2Z.id).
+  fold lens. destruct (existsb (Nat.eqb 0) lens) eqn:Hex.
+  - (* some rank holds an empty list: dtype/shape broadcast, world group only *)
+    assert (Hg : g = seq 0 n).
+    { apply Hempty. apply existsb_exists in Hex as (len & Hin & E). apply Nat.eqb_eq in E. subst len.
+      unfold lens in Hin. apply in_map_iff in Hin as (i & El & Hi). apply in_seq in Hi.
+      exists i. split; [lia|]. apply length_zero_iff_nil. exact El. }
+    destruct (sync_dtype_shape_run n xss d z Hn Hsome Ht) as (mr & Hmr & Hrun).
+    bindr_with (fun i => sync_dtype_shape i (hd_error (xss i))) (fun _ : nat => Some mr).
+    { replace (respond g) with (respond (seq 0 n)); [exact Hrun|f_equal; symmetry; exact Hg]. }
+    apply (Hloop (fun _ => mr)). intros i _. exact Hmr.
+  - (* no rank is empty *)
+    set (ms := fun i => match xss i with x0 :: _ => meta_of x0 | [] => (z, repeat 0 d) end).
+    refine (extK g (fun i => list_loop dst i (ms i) lens (xss i) 0 (maxl lens) (untouched Wg)) _ _ _ _ _).
+    + intros i Hi. apply in_seq in Hi. unfold ms. destruct (xss i) as [|x0 l] eqn:Ex; [|reflexivity].
+      exfalso. assert (Hf : existsb (Nat.eqb 0) lens = true); [|congruence].
+      apply existsb_exists. exists 0. split; [|reflexivity]. unfold lens.
+      apply in_map_iff. exists i. split; [rewrite Ex; reflexivity|apply in_seq; lia].
+    + apply Hloop. intros i Hi. unfold ms. destruct (xss i) as [|x0 l] eqn:Ex.
+      * cbn [fst snd]. rewrite repeat_length. split; reflexivity.
+      * destruct (Ht i Hi x0) as (_ & Hd & Hz); [rewrite Ex; left; reflexivity|]. split; assumption.
+Qed.
